@@ -22,6 +22,21 @@
  *                 msgs sent=K cbs=N               requests answered for the client / msg_process runs for its pid
  *                 fs ...                          (disconnect)
  *                 residue SNAP                    ledger after the connection is gone ("-" = nothing left)
+ *   further keys of a cli line (all optional):
+ *     peer=qb|raw   raw: the child is NOT libqb's client: socket(AF_UNIX, SOCK_STREAM) + connect to the service's
+ *                   abstract socket, no SO_PASSCRED of its own, writes a struct qb_ipc_connection_request in
+ *                   frag=N (1-3) pieces and reads the response header (connect = hdr.error)
+ *     hs=pre|win|post   when the raw peer writes its handshake: before the server's accept() (the group is not
+ *                   started before it has written), inside the interposed accept() after the real accept returned
+ *                   (accept -> per-connection setsockopt window), or right after the server's
+ *                   setsockopt(SO_PASSCRED, 1) on the accepted socket
+ *     plant=K:NAME:f666|f644|link   hostile peer: a second process with the client's ids (setres[ug]id, umask 0)
+ *                   plants, right after the K-th logged call of the connection, a regular file (O_CREAT|O_EXCL, that
+ *                   mode) or a symlink to a root-owned 0600 victim file outside the directory under the predictable
+ *                   name NAME (request-header ... event-data, control):
+ *                 plant NAME KIND -> ok|ENAME | SNAP      (after the fs line of call K)
+ *                 planted same|changed|gone|none          inode of the planted object at the end vs when planted
+ *                 victim MODE:UID:GID:SIZE -> MODE:UID:GID:SIZE   the victim file before / after the connection
  *   SNAP = "-" | NAME=TMODE:UID:GID,...  ("." = the directory; T = d|f|s|l|o; names without the
  *   qb- prefix and the service name).
  */
@@ -55,6 +70,14 @@ struct cli {
 	int msg_cbs;
 	char lbuf[256];
 	int llen;
+	/* raw peer */
+	int raw, hs, frags, ackfd, sfd, go_sent;
+	/* hostile peer planting an object */
+	int plant_at, plant_kind, plant_done, plant_ok;
+	char plant_name[64], plant_path[600], victim[128], victim_before[64];
+	unsigned long plant_ino;
+	pid_t planter;
+	int pl_cmd, pl_ack;
 };
 
 static struct cli clis[MAXCLI];
@@ -175,6 +198,15 @@ static struct cli *cli_by_pid(pid_t pid)
 	return NULL;
 }
 
+static struct cli *cli_by_sfd(int fd)
+{
+	int i;
+	for (i = 0; i < MAXCLI; i++) {
+		if (clis[i].used && clis[i].sfd == fd && fd >= 0) return &clis[i];
+	}
+	return NULL;
+}
+
 /* connection a path belongs to: /dev/shm/qb-<mypid>-<clientpid>-<fd>-...; "/dev/shm" itself goes
  * to the connection that made the previous call */
 static struct cli *cli_of_path(const char *p)
@@ -184,6 +216,11 @@ static struct cli *cli_of_path(const char *p)
 	if (strcmp(p, "/dev/shm") == 0) return adm_cur;
 	if (strncmp(p, shm_pfx, n) == 0) {
 		struct cli *cl = cli_by_pid((pid_t)atoi(p + n));
+		if (!cl) {
+			/* the library did not learn the peer's pid: fall back to the socket (qb-<spid>-<cpid>-<fd>-) */
+			const char *q = strchr(p + n, '-');
+			if (q) cl = cli_by_sfd(atoi(q + 1));
+		}
 		if (cl) adm_cur = cl;
 		return cl;
 	}
@@ -201,6 +238,33 @@ static int inject(struct cli *cl)
 	return 0;
 }
 
+static const char *plant_kinds[] = { "-", "f666", "f644", "link" };
+
+static void snapshot(struct cli *cl, char *out, size_t n);
+
+/* the hostile peer acts now: tell the planter process the directory, wait until it has tried */
+static void do_plant(struct cli *cl)
+{
+	char msg[400], rep[64], snap[1400];
+	int n = 0, e = ENOENT;
+	cl->plant_done = 1;
+	if (cl->have_dir && cl->planter > 0) {
+		char b;
+		snprintf(msg, sizeof msg, "P %s\n", cl->dir);
+		if (write(cl->pl_cmd, msg, strlen(msg)) < 0) { /* planter gone */ }
+		while (n < (int)sizeof rep - 1 && read(cl->pl_ack, &b, 1) == 1 && b != '\n') rep[n++] = b;
+		rep[n] = 0;
+		if (sscanf(rep, "ok %lu", &cl->plant_ino) == 1) {
+			cl->plant_ok = 1;
+			e = 0;
+		} else if (sscanf(rep, "E %d", &e) != 1) {
+			e = EIO;
+		}
+	}
+	snapshot(cl, snap, sizeof snap);
+	ev_add(cl, "plant %s %s -> %s | %s", cl->plant_name, plant_kinds[cl->plant_kind], e ? ename(e) : "ok", snap);
+}
+
 static void fs_log(struct cli *cl, int res_errno, const char *fmt, ...)
 {
 	char call[700], snap[1400];
@@ -211,6 +275,7 @@ static void fs_log(struct cli *cl, int res_errno, const char *fmt, ...)
 	va_end(ap);
 	snapshot(cl, snap, sizeof snap);
 	ev_add(cl, "fs %s -> %s | %s", call, res_errno ? ename(res_errno) : "ok", snap);
+	if (cl->plant_at > 0 && !cl->plant_done && cl->ncalls == cl->plant_at) do_plant(cl);
 	errno = saved;
 }
 
@@ -472,13 +537,66 @@ int rename(const char *a, const char *b)
 	return r;
 }
 
+/* accept(): remember which client the new socket belongs to (SO_PEERCRED: the connect()-time identity, not
+ * what the library uses); a raw peer with hs=win writes its handshake NOW, i.e. after the kernel's accept
+ * and before the library has touched the new socket */
+int accept(int fd, struct sockaddr *a, socklen_t *l)
+{
+	int r;
+	REAL(int, accept, int, struct sockaddr *, socklen_t *);
+	r = real_accept(fd, a, l);
+	if (r >= 0 && !adm_child) {
+		struct ucred uc;
+		socklen_t ul = sizeof uc;
+		int saved = errno;
+		if (getsockopt(r, SOL_SOCKET, SO_PEERCRED, &uc, &ul) == 0) {
+			struct cli *cl = cli_by_pid(uc.pid);
+			int i;
+			for (i = 0; i < MAXCLI; i++) if (clis[i].sfd == r) clis[i].sfd = -1;
+			if (cl) {
+				cl->sfd = r;
+				if (cl->raw && cl->hs == 1 && !cl->go_sent) {
+					char b;
+					cl->go_sent = 1;
+					if (write(cl->cfd, "g", 1) == 1 && read(cl->ackfd, &b, 1) < 0) { /* child gone */ }
+				}
+			}
+		}
+		errno = saved;
+	}
+	return r;
+}
+
+int setsockopt(int fd, int level, int opt, const void *v, socklen_t l)
+{
+	int r;
+	REAL(int, setsockopt, int, int, int, const void *, socklen_t);
+	r = real_setsockopt(fd, level, opt, v, l);
+	if (!adm_child && level == SOL_SOCKET && opt == SO_PASSCRED && v && l >= sizeof(int) && *(const int *)v == 1) {
+		struct cli *cl = cli_by_sfd(fd);
+		if (cl && cl->raw && cl->hs == 2 && !cl->go_sent) {
+			int saved = errno;
+			cl->go_sent = 1;
+			if (write(cl->cfd, "g", 1) < 0) { /* child gone */ }
+			errno = saved;
+		}
+	}
+	return r;
+}
+
+static struct cli *cli_of_conn(qb_ipcs_connection_t *c)
+{
+	struct cli *cl = cli_by_pid(c->pid);
+	return cl ? cl : cli_by_sfd(c->setup.u.us.sock);
+}
+
 /* ---- server callbacks ------------------------------------------------------------------- */
 struct adm_req { struct qb_ipc_request_header hdr; uint32_t n; };
 struct adm_resp { struct qb_ipc_response_header hdr; uint32_t n; };
 
 static int32_t cb_accept(qb_ipcs_connection_t *c, uid_t uid, gid_t gid)
 {
-	struct cli *cl = cli_by_pid(c->pid);
+	struct cli *cl = cli_of_conn(c);
 	if (!cl) return -ESRCH;
 	adm_cur = cl;
 	ev_add(cl, "accept %d %d", (int)uid, (int)gid);
@@ -491,13 +609,13 @@ static int32_t cb_accept(qb_ipcs_connection_t *c, uid_t uid, gid_t gid)
 
 static void cb_created(qb_ipcs_connection_t *c)
 {
-	struct cli *cl = cli_by_pid(c->pid);
+	struct cli *cl = cli_of_conn(c);
 	if (cl) cl->established++;
 }
 
 static int32_t cb_msg(qb_ipcs_connection_t *c, void *data, size_t size)
 {
-	struct cli *cl = cli_by_pid(c->pid);
+	struct cli *cl = cli_of_conn(c);
 	struct adm_req *rq = data;
 	struct adm_resp rs;
 	if (cl) cl->msg_cbs++;
@@ -519,7 +637,7 @@ static void check_phase(void);
 
 static void cb_destroyed(qb_ipcs_connection_t *c)
 {
-	struct cli *cl = cli_by_pid(c->pid);
+	struct cli *cl = cli_of_conn(c);
 	if (cl) {
 		cl->destroyed++;
 		adm_cur = cl;
@@ -535,7 +653,129 @@ static struct qb_ipcs_service_handlers handlers = {
 };
 
 /* ---- the forked client -------------------------------------------------------------------- */
-static void child_main(struct cli *cl, int cmd_fd, int rep_fd)
+/* a peer that is not libqb's client: plain AF_UNIX stream socket, no SO_PASSCRED of its own, the
+ * handshake written by hand (in cl->frags pieces) at the generated moment */
+static void raw_child(struct cli *cl, int cmd_fd, int rep_fd, int ack_fd)
+{
+	struct sockaddr_un addr;
+	struct qb_ipc_connection_request req;
+	struct qb_ipc_response_header rh;
+	char b, sink[4096];
+	size_t off = 0, got = 0;
+	int s, k, res = -999;
+	s = socket(AF_UNIX, SOCK_STREAM, 0);
+	memset(&addr, 0, sizeof addr);
+	addr.sun_family = AF_UNIX;
+	snprintf(addr.sun_path + 1, sizeof(addr.sun_path) - 1, "%s", svc_name);
+	if (s < 0 || connect(s, (struct sockaddr *)&addr, sizeof addr) != 0) {
+		res = -errno;
+		if (write(ack_fd, "w", 1) < 0) { }
+		goto report;
+	}
+	if (cl->hs != 0 && read(cmd_fd, &b, 1) != 1) _exit(4);	/* 'g': the generated moment has come */
+	memset(&req, 0, sizeof req);
+	req.hdr.id = QB_IPC_MSG_AUTHENTICATE;
+	req.hdr.size = sizeof req;
+	req.max_msg_size = MAXMSG;
+	for (k = 0; k < cl->frags; k++) {
+		size_t end = (k == cl->frags - 1) ? sizeof req : (sizeof req * (k + 1)) / cl->frags;
+		while (off < end) {
+			ssize_t w = write(s, (char *)&req + off, end - off);
+			if (w <= 0) break;
+			off += (size_t)w;
+		}
+	}
+	if (write(ack_fd, "w", 1) < 0) { }
+	while (got < sizeof rh) {
+		struct pollfd pfd = { .fd = s, .events = POLLIN };
+		ssize_t r;
+		if (poll(&pfd, 1, 8000) <= 0) break;
+		r = read(s, (char *)&rh + got, sizeof rh - got);
+		if (r <= 0) break;
+		got += (size_t)r;
+	}
+	if (got == sizeof rh) {
+		res = rh.error;
+		/* the rest of struct qb_ipc_connection_response (ring names) */
+		got = rh.size > (int)sizeof rh ? (size_t)rh.size - sizeof rh : 0;
+		while (got > 0) {
+			struct pollfd pfd = { .fd = s, .events = POLLIN };
+			ssize_t r;
+			if (poll(&pfd, 1, 2000) <= 0) break;
+			r = read(s, sink, got < sizeof sink ? got : sizeof sink);
+			if (r <= 0) break;
+			got -= (size_t)r;
+		}
+	}
+report:
+	dprintf(rep_fd, "connect %d\n", res);
+	if (read(cmd_fd, &b, 1) != 1) _exit(4);
+	dprintf(rep_fd, "sent 0\n");
+	if (read(cmd_fd, &b, 1) != 1) _exit(4);
+	if (s >= 0) close(s);
+	dprintf(rep_fd, "bye\n");
+	_exit(0);
+}
+
+/* the hostile peer's second process: same ids as the client, plants on request */
+static void planter_main(struct cli *cl, int cmd_fd, int ack_fd)
+{
+	char line[600];
+	adm_child = 1;
+	setgroups(0, NULL);
+	if (setresgid(cl->gid, cl->gid, cl->gid) != 0 || setresuid(cl->uid, cl->uid, cl->uid) != 0) _exit(3);
+	umask(0);
+	for (;;) {
+		int n = 0, r = -1;
+		char b, path[800], ring[32], *dash;
+		struct stat st;
+		while (n < (int)sizeof line - 1 && read(cmd_fd, &b, 1) == 1 && b != '\n') line[n++] = b;
+		line[n] = 0;
+		if (line[0] != 'P') _exit(0);
+		snprintf(ring, sizeof ring, "%s", cl->plant_name);
+		dash = strchr(ring, '-');
+		if (dash) {
+			*dash = 0;
+			snprintf(path, sizeof path, "%s/qb-%s-%s-%s", line + 2, ring, svc_name, dash + 1);
+		} else {
+			snprintf(path, sizeof path, "%s/qb-%s-%s", line + 2, ring, svc_name);
+		}
+		if (cl->plant_kind == 3) {
+			r = symlink(cl->victim, path);
+		} else {
+			int fd = open(path, O_CREAT | O_EXCL | O_WRONLY, cl->plant_kind == 1 ? 0666 : 0644);
+			if (fd >= 0) {
+				if (write(fd, "peer's own\n", 11) < 0) { }
+				close(fd);
+				r = 0;
+			}
+		}
+		if (r == 0 && lstat(path, &st) == 0) dprintf(ack_fd, "ok %lu\n", (unsigned long)st.st_ino);
+		else dprintf(ack_fd, "E %d\n", errno);
+	}
+}
+
+static void plant_path(struct cli *cl, char *out, size_t n)
+{
+	char ring[32], *dash;
+	snprintf(ring, sizeof ring, "%s", cl->plant_name);
+	dash = strchr(ring, '-');
+	if (dash) {
+		*dash = 0;
+		snprintf(out, n, "%s/qb-%s-%s-%s", cl->dir, ring, svc_name, dash + 1);
+	} else {
+		snprintf(out, n, "%s/qb-%s-%s", cl->dir, ring, svc_name);
+	}
+}
+
+static void stat_str(const char *p, char *out, size_t n)
+{
+	struct stat st;
+	if (lstat(p, &st) != 0) snprintf(out, n, "gone");
+	else snprintf(out, n, "%04o:%d:%d:%ld", (unsigned)(st.st_mode & 07777), (int)st.st_uid, (int)st.st_gid, (long)st.st_size);
+}
+
+static void child_main(struct cli *cl, int cmd_fd, int rep_fd, int ack_fd)
 {
 	qb_ipcc_connection_t *c;
 	char b;
@@ -548,6 +788,7 @@ static void child_main(struct cli *cl, int cmd_fd, int rep_fd)
 		_exit(3);
 	}
 	dprintf(rep_fd, "ids %d %d %d %d\n", (int)getuid(), (int)getgid(), (int)geteuid(), (int)getegid());
+	if (cl->raw) raw_child(cl, cmd_fd, rep_fd, ack_fd);
 	c = qb_ipcc_connect(svc_name, MAXMSG);
 	dprintf(rep_fd, "connect %d\n", c ? 0 : -errno);
 	if (read(cmd_fd, &b, 1) != 1) _exit(4);
@@ -636,6 +877,9 @@ static int parse_cli(char *line, struct cli *cl)
 	char *tok, *save = NULL;
 	memset(cl, 0, sizeof *cl);
 	cl->used = 1;
+	cl->sfd = -1;
+	cl->frags = 1;
+	cl->ackfd = cl->pl_cmd = cl->pl_ack = -1;
 	tok = strtok_r(line, " ", &save);	/* "cli" */
 	tok = strtok_r(NULL, " ", &save);
 	if (!tok) return -1;
@@ -646,6 +890,21 @@ static int parse_cli(char *line, struct cli *cl)
 		else if (strncmp(tok, "rc=", 3) == 0) cl->rc = atoi(tok + 3);
 		else if (strncmp(tok, "msgs=", 5) == 0) cl->msgs = atoi(tok + 5);
 		else if (strcmp(tok, "ids=eff") == 0) cl->eff_only = 1;
+		else if (strcmp(tok, "peer=raw") == 0) cl->raw = 1;
+		else if (strcmp(tok, "hs=win") == 0) cl->hs = 1;
+		else if (strcmp(tok, "hs=post") == 0) cl->hs = 2;
+		else if (strncmp(tok, "frag=", 5) == 0) {
+			cl->frags = atoi(tok + 5);
+			if (cl->frags < 1) cl->frags = 1;
+			if (cl->frags > 8) cl->frags = 8;
+		} else if (strncmp(tok, "plant=", 6) == 0) {
+			char kind[16];
+			int k;
+			if (sscanf(tok + 6, "%d:%63[^:]:%15s", &k, cl->plant_name, kind) == 3 && k > 0) {
+				cl->plant_at = k;
+				cl->plant_kind = strcmp(kind, "f666") == 0 ? 1 : strcmp(kind, "f644") == 0 ? 2 : 3;
+			}
+		}
 		else if (strncmp(tok, "auth=", 5) == 0) {
 			unsigned m;
 			if (sscanf(tok + 5, "%d:%d:%o", &cl->auid, &cl->agid, &m) == 3) {
@@ -676,22 +935,55 @@ static void run_group(int n)
 	adm_cur = NULL;
 	for (i = 0; i < n; i++) {
 		struct cli *cl = &clis[i];
-		int cmd[2], rep[2];
-		if (pipe(cmd) != 0 || pipe(rep) != 0) { printf("EPIPE\n"); return; }
+		int cmd[2], rep[2], ack[2];
+		if (pipe(cmd) != 0 || pipe(rep) != 0 || pipe(ack) != 0) { printf("EPIPE\n"); return; }
 		fflush(stdout);
+		if (cl->plant_at > 0) {
+			int pc[2], pa[2], vfd;
+			REAL(int, open, const char *, int, ...);
+			snprintf(cl->victim, sizeof cl->victim, "/dev/shm/c05v-%d-%d", (int)getpid(), cl->idx);
+			vfd = real_open(cl->victim, O_CREAT | O_TRUNC | O_WRONLY, 0600);
+			if (vfd >= 0) {
+				if (write(vfd, "root's secret\n", 14) < 0) { }
+				if (fchown(vfd, 0, 0) != 0 || fchmod(vfd, 0600) != 0) { }
+				close(vfd);
+			}
+			stat_str(cl->victim, cl->victim_before, sizeof cl->victim_before);
+			if (pipe(pc) == 0 && pipe(pa) == 0) {
+				cl->planter = fork();
+				if (cl->planter == 0) {
+					close(pc[1]);
+					close(pa[0]);
+					planter_main(cl, pc[0], pa[1]);
+					_exit(0);
+				}
+				close(pc[0]);
+				close(pa[1]);
+				cl->pl_cmd = pc[1];
+				cl->pl_ack = pa[0];
+			}
+		}
 		cl->pid = fork();
 		if (cl->pid == 0) {
 			close(cmd[1]);
 			close(rep[0]);
-			child_main(cl, cmd[0], rep[1]);
+			close(ack[0]);
+			child_main(cl, cmd[0], rep[1], ack[1]);
 			_exit(0);
 		}
 		close(cmd[0]);
 		close(rep[1]);
+		close(ack[1]);
+		cl->ackfd = ack[0];
 		cl->cfd = cmd[1];
 		cl->rfd = rep[0];
 		fcntl(cl->rfd, F_SETFL, fcntl(cl->rfd, F_GETFL) | O_NONBLOCK);
 		qb_loop_poll_add(hl_loop, QB_LOOP_MED, cl->rfd, POLLIN, cl, rep_cb);
+	}
+	/* raw peers with hs=pre have connected and written their handshake before the server accepts anything */
+	for (i = 0; i < n; i++) {
+		char b;
+		if (clis[i].raw && clis[i].hs == 0 && read(clis[i].ackfd, &b, 1) < 0) { /* child gone */ }
 	}
 	run_phase(1);
 	for (i = 0; i < n; i++) {
@@ -715,7 +1007,14 @@ static void run_group(int n)
 		qb_loop_poll_del(hl_loop, cl->rfd);
 		close(cl->rfd);
 		close(cl->cfd);
+		close(cl->ackfd);
 		waitpid(cl->pid, &st, 0);
+		if (cl->planter > 0) {
+			if (write(cl->pl_cmd, "Q\n", 2) < 0) { }
+			close(cl->pl_cmd);
+			close(cl->pl_ack);
+			waitpid(cl->planter, &st, 0);
+		}
 	}
 	for (i = 0; i < n; i++) {
 		struct cli *cl = &clis[i];
@@ -728,6 +1027,17 @@ static void run_group(int n)
 		}
 		/* msg_process may only ever run for connected clients; late callbacks are counted too */
 		printf("late cbs=%d\n", cl->msg_cbs);
+		if (cl->plant_at > 0) {
+			char now[64], pp[600];
+			struct stat pst;
+			REAL(int, unlink, const char *);
+			plant_path(cl, pp, sizeof pp);
+			printf("planted %s\n", !cl->plant_ok ? "none" : lstat(pp, &pst) != 0 ? "gone" :
+			       (unsigned long)pst.st_ino == cl->plant_ino ? "same" : "changed");
+			stat_str(cl->victim, now, sizeof now);
+			printf("victim %s -> %s\n", cl->victim_before, now);
+			real_unlink(cl->victim);
+		}
 		printf("residue %s\n", snap);
 		if (cl->have_dir) {
 			/* remove what the library left behind (it has been reported above) */
@@ -778,12 +1088,19 @@ static void start_janitor(void)
 		close(p[1]);
 		for (fd = 0; fd < 3; fd++) close(fd);
 		while (read(p[0], &b, 1) > 0) { }
+		char vpfx[64];
 		snprintf(pfx, sizeof pfx, "qb-%d-", (int)parent);
+		snprintf(vpfx, sizeof vpfx, "c05v-%d-", (int)parent);
 		d = opendir("/dev/shm");
 		while (d && (e = readdir(d)) != NULL) {
 			char path[512], p2[1024];
 			DIR *d2;
 			struct dirent *e2;
+			if (strncmp(e->d_name, vpfx, strlen(vpfx)) == 0) {
+				snprintf(path, sizeof path, "/dev/shm/%s", e->d_name);
+				unlink(path);
+				continue;
+			}
 			if (strncmp(e->d_name, pfx, strlen(pfx)) != 0) continue;
 			snprintf(path, sizeof path, "/dev/shm/%s", e->d_name);
 			d2 = opendir(path);
